@@ -217,6 +217,9 @@ type sweepEvent struct {
 	Clean   string `json:"clean"`
 	Fetch   string `json:"fetch"` // result kind of the later Fetch
 	Match   string `json:"match"` // what the Fetch installed: v1 | v2 | empty | partial | mixed
+	Again   string `json:"storeAgain"`  // after all that: result kind of a Store of v1 AGAIN (the content the entry held before) by the other client ...
+	Fetch2  string `json:"fetchAgain"`  // ... and of the Fetch that follows it
+	Match2  string `json:"matchAgain"`
 	FaultOp string `json:"faultOp"`
 }
 
@@ -345,6 +348,13 @@ func oneSweep(kind, backend string, k, total int, mode, scratch string) (sweepEv
 	ev.Fetch = call(func() error { return w.clients["B"].repo.Fetch(ctx, key, w.clients["B"].dest) }, 5*time.Second)
 	t3 := time.Now()
 	ev.Match = w.classify(w.clients["B"].dest)
+	if ev.Match != "void" {
+		// the content the entry held before the interrupted Store is stored again: a Store like any other
+		ev.Again = call(func() error { return w.clients["B"].repo.Store(ctx, key, w.src(1)) }, 10*time.Second)
+		_ = w.base.RemoveAll(w.clients["B"].dest)
+		ev.Fetch2 = call(func() error { return w.clients["B"].repo.Fetch(ctx, key, w.clients["B"].dest) }, 5*time.Second)
+		ev.Match2 = w.classify(w.clients["B"].dest)
+	}
 	if os.Getenv("VERIF_TIMING") != "" {
 		fmt.Fprintf(os.Stderr, "k=%d %s: setup+store %v clean %v fetch %v\n", k, mode, t1.Sub(t0), t2.Sub(t1), t3.Sub(t2))
 	}
